@@ -1,1 +1,878 @@
-// harnesses for buffer
+// Harnesses for `WorkTokenizedBuffer` / `TokenizedBuffer` (C02, C04, C05, C17, C19) and the
+// array-backed *shadow buffer* that stands in for `WorkTokenizedBuffer` in lexer-level harnesses
+// (its contract is itself proved against the real methods by the `buf_refines_shadow_*` harnesses).
+// Compiled inside `lexer::buffer` under cfg(kani).
+
+use super::super::cursor::verif::{any_str, any_str_prefixed, count_chars};
+
+// ---------------------------------------------------------------------------------------------
+// lean constructors / observers (need the private fields)
+
+impl WorkTokenizedBuffer {
+    /// Work buffer with concrete capacities (the real `new` sizes its vectors from the symbolic
+    /// source length, which CBMC cannot handle; capacity is irrelevant to every property).
+    pub(crate) fn verif_new(source_len: usize, cap: usize) -> WorkTokenizedBuffer {
+        let _ = source_len;
+        WorkTokenizedBuffer {
+            line_infos: Vec::with_capacity(cap),
+            token_infos: Vec::with_capacity(cap),
+            string_literals_buffer: String::with_capacity(cap),
+            #[cfg(debug_assertions)]
+            source_len,
+        }
+    }
+    pub(crate) fn verif_literals(&self) -> &str {
+        self.string_literals_buffer.as_str()
+    }
+    pub(crate) fn verif_token(&self, i: usize) -> TokenInfo {
+        self.token_infos[i]
+    }
+    pub(crate) fn verif_line(&self, i: usize) -> (u32, u32) {
+        (self.line_infos[i].byte_offset.get(), self.line_infos[i].start.get())
+    }
+}
+
+pub(crate) fn line_idx(v: u32) -> LineIdx {
+    LineIdx::new(v)
+}
+pub(crate) fn line_idx_get(l: LineIdx) -> u32 {
+    l.0
+}
+pub(crate) fn token_idx(v: u32) -> TokenIdx {
+    TokenIdx::new(v)
+}
+pub(crate) fn cp_counts(c: &WorkBufferCheckpoint) -> (usize, usize, usize) {
+    (c.line_count, c.token_count, c.string_literals_len)
+}
+
+pub(crate) fn any_channel() -> TokenChannel {
+    match kani::any::<u8>() % 3 {
+        0 => TokenChannel::DEFAULT,
+        1 => TokenChannel::HIDDEN,
+        _ => TokenChannel::COMMENT,
+    }
+}
+
+pub(crate) fn any_token_type() -> TokenType {
+    let x: u16 = kani::any();
+    kani::assume(x <= TokenType::KwPut as u16);
+    unsafe { std::mem::transmute::<u16, TokenType>(x) }
+}
+
+pub(crate) fn any_payload() -> Payload {
+    match kani::any::<u8>() % 4 {
+        0 => Payload::None,
+        1 => Payload::Integer(kani::any()),
+        2 => Payload::Float(f64::from_bits(kani::any::<u64>() & 0x7fef_ffff_ffff_ffff)),
+        _ => Payload::StringLiteral(kani::any(), kani::any()),
+    }
+}
+
+fn payload_same(a: Payload, b: Payload) -> bool {
+    match (a, b) {
+        (Payload::None, Payload::None) => true,
+        (Payload::Integer(x), Payload::Integer(y)) => x == y,
+        (Payload::Float(x), Payload::Float(y)) => x.to_bits() == y.to_bits(),
+        (Payload::StringLiteral(a, b), Payload::StringLiteral(c, d)) => a == c && b == d,
+        _ => false,
+    }
+}
+
+// ---------------------------------------------------------------------------------------------
+// Shadow buffer
+
+pub(crate) mod shadow {
+    //! Array-backed model of `WorkTokenizedBuffer` used as a stub in lexer-level harnesses.
+    //! Capacity overflow is an `assert!` (never an `assume`), the real methods' debug
+    //! assertions are copied as assertions.
+    use super::*;
+    pub(crate) const CAP: usize = 8;
+    pub(crate) const LCAP: usize = 16;
+    pub(crate) static mut TOK_N: usize = 0;
+    pub(crate) static mut TOK: [std::mem::MaybeUninit<TokenInfo>; CAP] = [const { std::mem::MaybeUninit::uninit() }; CAP];
+    pub(crate) static mut LINE_N: usize = 0;
+    pub(crate) static mut LINE: [std::mem::MaybeUninit<LineInfo>; CAP] = [const { std::mem::MaybeUninit::uninit() }; CAP];
+    pub(crate) static mut LIT_N: usize = 0;
+    pub(crate) static mut LIT: [u8; LCAP] = [0; LCAP];
+    pub(crate) static mut SRC_LEN: usize = 0;
+
+    pub(crate) fn reset(source_len: usize) {
+        unsafe {
+            TOK_N = 0;
+            LINE_N = 0;
+            LIT_N = 0;
+            SRC_LEN = source_len;
+        }
+    }
+    pub(crate) fn tok_n() -> usize {
+        unsafe { TOK_N }
+    }
+    pub(crate) fn line_n() -> usize {
+        unsafe { LINE_N }
+    }
+    pub(crate) fn lit_n() -> usize {
+        unsafe { LIT_N }
+    }
+    pub(crate) fn tok(i: usize) -> TokenInfo {
+        unsafe { TOK[i].assume_init() }
+    }
+    pub(crate) fn line(i: usize) -> (u32, u32) {
+        unsafe {
+            let l = LINE[i].assume_init();
+            (l.byte_offset.get(), l.start.get())
+        }
+    }
+    pub(crate) fn lit(i: usize) -> u8 {
+        unsafe { LIT[i] }
+    }
+    /// Pre-load a token (look-behind context of a harness).
+    pub(crate) fn preload_token(t: TokenInfo) {
+        unsafe {
+            TOK[TOK_N] = std::mem::MaybeUninit::new(t);
+            TOK_N += 1;
+        }
+    }
+    pub(crate) fn mk_token(channel: TokenChannel, token_type: TokenType, byte_offset: u32, start: u32, line: u32, payload: Payload) -> TokenInfo {
+        TokenInfo { channel, token_type, byte_offset: ByteOffset::new(byte_offset), start: CharOffset::new(start), line: LineIdx::new(line), payload }
+    }
+    pub(crate) fn preload_literal_bytes(n: usize) {
+        unsafe {
+            LIT_N = n;
+        }
+    }
+
+    impl WorkTokenizedBuffer {
+        pub(crate) fn sh_add_token(&mut self, channel: TokenChannel, token_type: TokenType, byte_offset: ByteOffset, start: CharOffset, line: LineIdx, payload: Payload) {
+            unsafe {
+                assert!(TOK_N < CAP, "shadow token capacity");
+                #[cfg(debug_assertions)]
+                {
+                    assert!(usize::from(start) <= SRC_LEN, "Token char offset out of bounds");
+                    if TOK_N > 0 {
+                        assert!(byte_offset >= TOK[TOK_N - 1].assume_init().byte_offset, "Token byte offset before previous token byte offset");
+                    }
+                    assert!((line.0 as usize) < LINE_N, "Line index out of bounds");
+                    assert!(byte_offset >= LINE[line.0 as usize].assume_init().byte_offset, "Token byte offset before line byte offset");
+                }
+                TOK[TOK_N] = std::mem::MaybeUninit::new(TokenInfo { channel, token_type, byte_offset, start, line, payload });
+                TOK_N += 1;
+            }
+        }
+        #[cfg(feature = "macro_sep")]
+        #[allow(clippy::too_many_arguments)]
+        pub(crate) fn sh_insert_token(&mut self, at: TokenIdx, channel: TokenChannel, token_type: TokenType, byte_offset: ByteOffset, start: CharOffset, line: LineIdx, payload: Payload) {
+            unsafe {
+                assert!(TOK_N < CAP, "shadow token capacity");
+                let at = at.get() as usize;
+                assert!(at <= TOK_N, "Token index out of bounds");
+                #[cfg(debug_assertions)]
+                {
+                    if at > 0 {
+                        assert!(byte_offset >= TOK[at - 1].assume_init().byte_offset, "Token byte offset before previous token byte offset");
+                    }
+                    assert!((line.0 as usize) < LINE_N, "Line index out of bounds");
+                    assert!(byte_offset >= LINE[line.0 as usize].assume_init().byte_offset, "Token byte offset before line byte offset");
+                }
+                let mut i = CAP - 1;
+                while i > 0 {
+                    if i > at && i <= TOK_N {
+                        TOK[i] = TOK[i - 1];
+                    }
+                    i -= 1;
+                }
+                TOK[at] = std::mem::MaybeUninit::new(TokenInfo { channel, token_type, byte_offset, start, line, payload });
+                TOK_N += 1;
+            }
+        }
+        pub(crate) fn sh_add_line(&mut self, byte_offset: ByteOffset, start: CharOffset) -> LineIdx {
+            unsafe {
+                assert!(LINE_N < CAP, "shadow line capacity");
+                #[cfg(debug_assertions)]
+                assert!(usize::from(byte_offset) <= SRC_LEN, "Line byte offset out of bounds");
+                LINE[LINE_N] = std::mem::MaybeUninit::new(LineInfo { byte_offset, start });
+                LINE_N += 1;
+                LineIdx::new((LINE_N - 1) as u32)
+            }
+        }
+        pub(crate) fn sh_last_line(&self) -> Option<LineIdx> {
+            unsafe {
+                if LINE_N == 0 {
+                    None
+                } else {
+                    Some(LineIdx::new((LINE_N - 1) as u32))
+                }
+            }
+        }
+        pub(crate) fn sh_last_line_info(&self) -> Option<&LineInfo> {
+            unsafe {
+                if LINE_N == 0 {
+                    None
+                } else {
+                    Some((*std::ptr::addr_of!(LINE))[LINE_N - 1].assume_init_ref())
+                }
+            }
+        }
+        pub(crate) fn sh_last_token(&self) -> Option<TokenIdx> {
+            unsafe {
+                if TOK_N == 0 {
+                    None
+                } else {
+                    Some(TokenIdx::new((TOK_N - 1) as u32))
+                }
+            }
+        }
+        pub(crate) fn sh_last_token_info(&self) -> Option<&TokenInfo> {
+            unsafe {
+                if TOK_N == 0 {
+                    None
+                } else {
+                    Some((*std::ptr::addr_of!(TOK))[TOK_N - 1].assume_init_ref())
+                }
+            }
+        }
+        pub(crate) fn sh_last_token_info_mut(&mut self) -> Option<&mut TokenInfo> {
+            unsafe {
+                if TOK_N == 0 {
+                    None
+                } else {
+                    Some((*std::ptr::addr_of_mut!(TOK))[TOK_N - 1].assume_init_mut())
+                }
+            }
+        }
+        pub(crate) fn sh_last_token_info_on_default_channel(&self) -> Option<&TokenInfo> {
+            unsafe {
+                let mut best = CAP;
+                let mut i = 0;
+                while i < CAP {
+                    if i < TOK_N && (*std::ptr::addr_of!(TOK))[i].assume_init_ref().channel == TokenChannel::DEFAULT {
+                        best = i;
+                    }
+                    i += 1;
+                }
+                if best < CAP {
+                    Some((*std::ptr::addr_of!(TOK))[best].assume_init_ref())
+                } else {
+                    None
+                }
+            }
+        }
+        pub(crate) fn sh_last_token_info_on_default_channel_mut(&mut self) -> Option<&mut TokenInfo> {
+            unsafe {
+                let mut best = CAP;
+                let mut i = 0;
+                while i < CAP {
+                    if i < TOK_N && (*std::ptr::addr_of!(TOK))[i].assume_init_ref().channel == TokenChannel::DEFAULT {
+                        best = i;
+                    }
+                    i += 1;
+                }
+                if best < CAP {
+                    Some((*std::ptr::addr_of_mut!(TOK))[best].assume_init_mut())
+                } else {
+                    None
+                }
+            }
+        }
+        pub(crate) fn sh_line_count(&self) -> u32 {
+            unsafe { LINE_N as u32 }
+        }
+        pub(crate) fn sh_token_count(&self) -> u32 {
+            unsafe { TOK_N as u32 }
+        }
+        pub(crate) fn sh_next_string_literal_start(&self) -> u32 {
+            unsafe { LIT_N as u32 }
+        }
+        pub(crate) fn sh_add_string_literal<S: AsRef<str>>(&mut self, literal: S) -> (u32, u32) {
+            unsafe {
+                let start = LIT_N as u32;
+                let b = literal.as_ref().as_bytes();
+                let mut i = 0;
+                while i < b.len() {
+                    assert!(LIT_N < LCAP, "shadow literal capacity");
+                    LIT[LIT_N] = b[i];
+                    LIT_N += 1;
+                    i += 1;
+                }
+                (start, LIT_N as u32)
+            }
+        }
+        pub(crate) fn sh_checkpoint(&self) -> WorkBufferCheckpoint {
+            unsafe { WorkBufferCheckpoint { line_count: LINE_N, token_count: TOK_N, string_literals_len: LIT_N } }
+        }
+        pub(crate) fn sh_rollback(&mut self, checkpoint: WorkBufferCheckpoint) {
+            unsafe {
+                if checkpoint.token_count < TOK_N {
+                    TOK_N = checkpoint.token_count;
+                }
+                if checkpoint.line_count < LINE_N {
+                    LINE_N = checkpoint.line_count;
+                }
+                if checkpoint.string_literals_len < LIT_N {
+                    LIT_N = checkpoint.string_literals_len;
+                }
+            }
+        }
+    }
+}
+
+// ---------------------------------------------------------------------------------------------
+// Symbolic real work buffer + abstraction relation to the shadow
+
+fn tok_same(a: &TokenInfo, b: &TokenInfo) -> bool {
+    a.channel == b.channel && a.token_type == b.token_type && a.byte_offset == b.byte_offset && a.start == b.start && a.line == b.line && payload_same(a.payload, b.payload)
+}
+
+/// A real work buffer with exactly NT tokens, NL >= 1 lines and LN literal bytes, contents symbolic
+/// (only what the buffer methods themselves rely on is constrained), mirrored into the shadow.
+/// Counts are constants of the instance: conditional pushes make the Vec length symbolic and the
+/// growth paths explode in CBMC.
+fn any_work_buffer_mirrored<const NT: usize, const NL: usize, const LN: usize>() -> WorkTokenizedBuffer {
+    shadow::reset(1000);
+    let mut lines = [LineInfo { byte_offset: ByteOffset::new(0), start: CharOffset::new(0) }; NL];
+    let mut i = 0;
+    while i < NL {
+        let bo: u32 = kani::any();
+        let so: u32 = kani::any();
+        kani::assume(bo <= 1000 && so <= bo);
+        lines[i] = LineInfo { byte_offset: ByteOffset::new(bo), start: CharOffset::new(so) };
+        unsafe {
+            shadow::LINE[shadow::LINE_N] = std::mem::MaybeUninit::new(lines[i]);
+            shadow::LINE_N += 1;
+        }
+        i += 1;
+    }
+    let mut toks = [TokenInfo { channel: TokenChannel::DEFAULT, token_type: TokenType::EOF, byte_offset: ByteOffset::new(0), start: CharOffset::new(0), line: LineIdx::new(0), payload: Payload::None }; NT];
+    let mut prev = 0u32;
+    let mut i = 0;
+    while i < NT {
+        let bo: u32 = kani::any();
+        let so: u32 = kani::any();
+        let li: u32 = kani::any();
+        kani::assume(bo >= prev && bo <= 1000 && so <= bo && (li as usize) < NL);
+        kani::assume(bo >= lines[li as usize].byte_offset.get());
+        prev = bo;
+        toks[i] = TokenInfo { channel: any_channel(), token_type: any_token_type(), byte_offset: ByteOffset::new(bo), start: CharOffset::new(so), line: LineIdx::new(li), payload: any_payload() };
+        shadow::preload_token(toks[i]);
+        i += 1;
+    }
+    let mut lit = [b'a'; LN];
+    let mut i = 0;
+    while i < LN {
+        let c: u8 = kani::any();
+        kani::assume(c < 0x80);
+        lit[i] = c;
+        unsafe {
+            shadow::LIT[shadow::LIT_N] = c;
+            shadow::LIT_N += 1;
+        }
+        i += 1;
+    }
+    let mut lv = Vec::with_capacity(NL + 2);
+    lv.extend_from_slice(&lines);
+    let mut tv = Vec::with_capacity(NT + 2);
+    tv.extend_from_slice(&toks);
+    let mut sb = String::with_capacity(LN + 8);
+    sb.push_str(unsafe { std::str::from_utf8_unchecked(&lit) });
+    WorkTokenizedBuffer {
+        line_infos: lv,
+        token_infos: tv,
+        string_literals_buffer: sb,
+        #[cfg(debug_assertions)]
+        source_len: 1000,
+    }
+}
+
+fn assert_abstraction(b: &WorkTokenizedBuffer) {
+    assert!(b.token_infos.len() == shadow::tok_n(), "C02: shadow refinement: token count");
+    assert!(b.line_infos.len() == shadow::line_n(), "C02: shadow refinement: line count");
+    assert!(b.string_literals_buffer.len() == shadow::lit_n(), "C02: shadow refinement: literal length");
+    let mut i = 0;
+    while i < shadow::CAP {
+        if i < b.token_infos.len() {
+            assert!(tok_same(&b.token_infos[i], &shadow::tok(i)), "C02: shadow refinement: token content");
+        }
+        if i < b.line_infos.len() {
+            let l = shadow::line(i);
+            assert!(b.line_infos[i].byte_offset.get() == l.0 && b.line_infos[i].start.get() == l.1, "C02: shadow refinement: line content");
+        }
+        i += 1;
+    }
+    let mut i = 0;
+    while i < 8 {
+        if i < b.string_literals_buffer.len() {
+            assert!(b.string_literals_buffer.as_bytes()[i] == shadow::lit(i), "C02: shadow refinement: literal content");
+        }
+        i += 1;
+    }
+}
+
+fn opt_tok_same(a: Option<&TokenInfo>, b: Option<&TokenInfo>) -> bool {
+    match (a, b) {
+        (None, None) => true,
+        (Some(x), Some(y)) => tok_same(x, y),
+        _ => false,
+    }
+}
+
+/// Every mutating method of the real buffer refines the shadow method (same abstraction afterwards).
+#[kani::proof]
+#[kani::unwind(10)]
+fn buf_refines_shadow_mutators() {
+    let mut b = any_work_buffer_mirrored::<2, 2, 2>();
+    let nl = b.line_infos.len();
+    match kani::any::<u8>() % 4 {
+        0 => {
+            // add_token with arguments satisfying its own debug assertions
+            let bo: u32 = kani::any();
+            let so: u32 = kani::any();
+            let li: u32 = kani::any();
+            kani::assume(bo <= 1000 && so <= bo && (li as usize) < nl);
+            kani::assume(bo >= b.line_infos[li as usize].byte_offset.get());
+            if let Some(l) = b.token_infos.last() {
+                kani::assume(bo >= l.byte_offset.get());
+            }
+            let (ch, tt, pl) = (any_channel(), any_token_type(), any_payload());
+            b.add_token(ch, tt, ByteOffset::new(bo), CharOffset::new(so), LineIdx::new(li), pl);
+            b.sh_add_token(ch, tt, ByteOffset::new(bo), CharOffset::new(so), LineIdx::new(li), pl);
+            kani::cover!(b.token_infos.len() == 3);
+        }
+        1 => {
+            let bo: u32 = kani::any();
+            let so: u32 = kani::any();
+            kani::assume(bo <= 1000);
+            let r1 = b.add_line(ByteOffset::new(bo), CharOffset::new(so));
+            let r2 = b.sh_add_line(ByteOffset::new(bo), CharOffset::new(so));
+            assert!(r1 == r2, "C02: shadow refinement: add_line result");
+        }
+        2 => {
+            let mut tmp = [0u8; 8];
+            let s = any_str::<2, 8>(&mut tmp);
+            kani::assume(s.is_ascii());
+            let r1 = b.add_string_literal(s);
+            let r2 = b.sh_add_string_literal(s);
+            assert!(r1 == r2, "C02/C07: shadow refinement: add_string_literal result");
+            assert!(r1.1 as usize == b.string_literals_buffer.len() && (r1.1 - r1.0) as usize == s.len(), "C07: add_string_literal returns the appended range");
+        }
+        _ => {
+            let cp = WorkBufferCheckpoint { line_count: kani::any(), token_count: kani::any(), string_literals_len: kani::any() };
+            b.rollback(cp);
+            b.sh_rollback(cp);
+            kani::cover!(b.token_infos.len() < 2);
+        }
+    }
+    assert_abstraction(&b);
+}
+
+/// Every observer of the real buffer returns what the shadow observer returns.
+#[kani::proof]
+#[kani::unwind(10)]
+fn buf_refines_shadow_observers() {
+    let mut b = any_work_buffer_mirrored::<3, 2, 1>();
+    assert_abstraction(&b);
+    assert!(b.last_line() == b.sh_last_line(), "C02: shadow refinement: last_line");
+    assert!(b.last_token() == b.sh_last_token(), "C02: shadow refinement: last_token");
+    assert!(b.line_count() == b.sh_line_count(), "C02: shadow refinement: line_count");
+    assert!(b.token_count() == b.sh_token_count(), "C02: shadow refinement: token_count");
+    assert!(b.next_string_literal_start() == b.sh_next_string_literal_start(), "C02: shadow refinement: next_string_literal_start");
+    assert!(b.last_line_info().map(|l| (l.byte_offset, l.start)) == b.sh_last_line_info().map(|l| (l.byte_offset, l.start)), "C02: shadow refinement: last_line_info");
+    assert!(opt_tok_same(b.last_token_info(), b.sh_last_token_info()), "C02: shadow refinement: last_token_info");
+    assert!(opt_tok_same(b.last_token_info_on_default_channel(), b.sh_last_token_info_on_default_channel()), "C02/C15: shadow refinement: last_token_info_on_default_channel");
+    let c1 = b.checkpoint();
+    let c2 = b.sh_checkpoint();
+    assert!(cp_counts(&c1) == cp_counts(&c2), "C02: shadow refinement: checkpoint");
+    // the _mut observers point at the same element
+    let nt: TokenType = any_token_type();
+    let a = b.last_token_info_on_default_channel_mut().map(|t| {
+        t.token_type = nt;
+    });
+    let s = b.sh_last_token_info_on_default_channel_mut().map(|t| {
+        t.token_type = nt;
+    });
+    assert!(a.is_some() == s.is_some());
+    let a = b.last_token_info_mut().map(|t| {
+        t.channel = TokenChannel::HIDDEN;
+    });
+    let s = b.sh_last_token_info_mut().map(|t| {
+        t.channel = TokenChannel::HIDDEN;
+    });
+    assert!(a.is_some() == s.is_some());
+    assert_abstraction(&b);
+    kani::cover!(b.token_infos.len() == 3 && b.token_infos[2].channel != TokenChannel::DEFAULT && b.token_infos[0].channel == TokenChannel::DEFAULT);
+}
+
+#[cfg(feature = "macro_sep")]
+#[kani::proof]
+#[kani::unwind(10)]
+fn buf_refines_shadow_insert() {
+    let mut b = any_work_buffer_mirrored::<3, 2, 1>();
+    let nl = b.line_infos.len();
+    let at: u32 = kani::any();
+    kani::assume((at as usize) <= b.token_infos.len());
+    let bo: u32 = kani::any();
+    let so: u32 = kani::any();
+    let li: u32 = kani::any();
+    kani::assume(bo <= 1000 && so <= bo && (li as usize) < nl);
+    kani::assume(bo >= b.line_infos[li as usize].byte_offset.get());
+    if at > 0 {
+        kani::assume(bo >= b.token_infos[at as usize - 1].byte_offset.get());
+    }
+    let n0 = b.token_infos.len();
+    let before0 = if n0 > 0 { Some(b.token_infos[0]) } else { None };
+    let (ch, tt, pl) = (any_channel(), any_token_type(), any_payload());
+    b.insert_token(TokenIdx::new(at), ch, tt, ByteOffset::new(bo), CharOffset::new(so), LineIdx::new(li), pl);
+    b.sh_insert_token(TokenIdx::new(at), ch, tt, ByteOffset::new(bo), CharOffset::new(so), LineIdx::new(li), pl);
+    assert_abstraction(&b);
+    // frame of insert_token (C18/C02): one more token, the new one at `at`, the others keep their order
+    assert!(b.token_infos.len() == n0 + 1, "C02/C18: insert_token adds exactly one token");
+    assert!(b.token_infos[at as usize].token_type == tt && b.token_infos[at as usize].byte_offset.get() == bo, "C02/C18: inserted token at index");
+    if let Some(t0) = before0 {
+        let j = if at == 0 { 1 } else { 0 };
+        assert!(tok_same(&b.token_infos[j], &t0), "C02/C18: insert_token shifts later tokens by one");
+    }
+    // iter_token_infos enumerates indices in order
+    let mut k = 0u32;
+    for (idx, ti) in b.iter_token_infos() {
+        assert!(idx.get() == k && tok_same(ti, &b.token_infos[k as usize]), "C18: iter_token_infos index/content");
+        k += 1;
+    }
+    kani::cover!(at == 1 && n0 == 3);
+}
+
+// ---------------------------------------------------------------------------------------------
+// add_token on the nightly path (C19): appends exactly the given token once, also when full
+
+fn add_token_appends(full: bool) {
+    let mut b = WorkTokenizedBuffer {
+        line_infos: Vec::with_capacity(2),
+        token_infos: Vec::with_capacity(if full { 1 } else { 5 }),
+        string_literals_buffer: String::new(),
+        #[cfg(debug_assertions)]
+        source_len: 1000,
+    };
+    b.add_line(ByteOffset::new(0), CharOffset::new(0));
+    b.add_token(TokenChannel::DEFAULT, TokenType::SEMI, ByteOffset::new(0), CharOffset::new(0), LineIdx::new(0), Payload::None);
+    let bo: u32 = kani::any();
+    let so: u32 = kani::any();
+    kani::assume(bo <= 1000 && so <= bo);
+    let (ch, tt, pl) = (any_channel(), any_token_type(), any_payload());
+    b.add_token(ch, tt, ByteOffset::new(bo), CharOffset::new(so), LineIdx::new(0), pl);
+    assert!(b.token_infos.len() == 2, "C19/C02: add_token appends exactly one token (also when the vector is full)");
+    let t = b.token_infos[1];
+    assert!(t.channel == ch && t.token_type == tt && t.byte_offset.get() == bo && t.start.get() == so && payload_same(t.payload, pl), "C19/C02: add_token stores its arguments");
+    assert!(b.token_infos[0].token_type == TokenType::SEMI, "C19/C02: add_token keeps earlier tokens");
+    kani::cover!(cfg!(rustc_nightly), "nightly path compiled");
+    kani::cover!(b.token_infos.capacity() >= 2);
+    std::mem::forget(b);
+}
+
+/// capacity exhausted: push_within_capacity fails, reserve + push path
+#[kani::proof]
+#[kani::unwind(8)]
+fn buf_add_token_nightly_full() {
+    add_token_appends(true);
+}
+
+/// spare capacity: push_within_capacity succeeds
+#[kani::proof]
+#[kani::unwind(8)]
+fn buf_add_token_nightly_spare() {
+    add_token_appends(false);
+}
+
+// ---------------------------------------------------------------------------------------------
+// Detached buffer satisfying the representation invariant established by C02-C04 (DESIGN §4.C05)
+
+fn any_detached<const NT: usize, const NL: usize>() -> TokenizedBuffer {
+    // exactly NT tokens (the last is EOF) and NL lines; smaller buffers are separate instances
+    let bom: bool = kani::any();
+    let (b0, c0) = if bom { (3u32, 1u32) } else { (0u32, 0u32) };
+    let mut lines = [LineInfo { byte_offset: ByteOffset::new(b0), start: CharOffset::new(c0) }; NL];
+    let mut i = 1;
+    while i < NL {
+        let pb = lines[i - 1].byte_offset.get();
+        let pc = lines[i - 1].start.get();
+        let bo: u32 = kani::any();
+        let co: u32 = kani::any();
+        // a line starts just past a '\n': at least one char further, bytes >= chars
+        kani::assume(bo > pb && bo < 1000 && co > pc && bo - pb >= co - pc);
+        lines[i] = LineInfo { byte_offset: ByteOffset::new(bo), start: CharOffset::new(co) };
+        i += 1;
+    }
+    let mut toks = [TokenInfo { channel: TokenChannel::DEFAULT, token_type: TokenType::EOF, byte_offset: ByteOffset::new(b0), start: CharOffset::new(c0), line: LineIdx::new(0), payload: Payload::None }; NT];
+    let mut i = 0;
+    while i < NT {
+        let bo: u32 = kani::any();
+        let co: u32 = kani::any();
+        let li: u32 = kani::any();
+        kani::assume(bo < 1000 && (li as usize) < NL);
+        if i == 0 {
+            kani::assume(bo == b0 && co == c0);
+        } else {
+            let pb = toks[i - 1].byte_offset.get();
+            let pc = toks[i - 1].start.get();
+            kani::assume(bo >= pb && co >= pc && bo - pb >= co - pc && ((bo == pb) == (co == pc)));
+            kani::assume(li >= toks[i - 1].line.0);
+        }
+        // the token's line is the last line entry at or before it, offsets consistent with it
+        let lb = lines[li as usize].byte_offset.get();
+        let lc = lines[li as usize].start.get();
+        kani::assume(bo >= lb && co >= lc && bo - lb >= co - lc && ((bo == lb) == (co == lc)));
+        if (li as usize) + 1 < NL {
+            kani::assume(bo < lines[li as usize + 1].byte_offset.get());
+        }
+        let last = i + 1 == NT;
+        if last {
+            // EOF on the last line
+            kani::assume(li as usize == NL - 1);
+        }
+        toks[i] = TokenInfo {
+            channel: if last { TokenChannel::DEFAULT } else { any_channel() },
+            token_type: if last { TokenType::EOF } else { any_token_type() },
+            byte_offset: ByteOffset::new(bo),
+            start: CharOffset::new(co),
+            line: LineIdx::new(li),
+            payload: if last { Payload::None } else { any_payload() },
+        };
+        i += 1;
+    }
+    TokenizedBuffer { line_infos: lines.to_vec(), token_infos: toks.to_vec(), string_literals_buffer: String::new() }
+}
+
+macro_rules! detached_harnesses {
+    ($nt:literal, $nl:literal, $uw:literal, $c05:ident, $c02:ident) => {
+        /// C05: bulk resolved view == per-token accessors on every valid buffer.
+        #[kani::proof]
+        #[kani::unwind($uw)]
+        fn $c05() {
+            let buf = any_detached::<$nt, $nl>();
+            let v = buf.into_resolved_token_vec();
+            assert!(v.len() == buf.token_infos.len(), "C05: one entry per token");
+            let mut i = 0usize;
+            while i < $nt {
+                if i < v.len() {
+                    let t = TokenIdx::new(i as u32);
+                    let r = &v[i];
+                    assert!(r.token_index == i as u32, "C05: index");
+                    assert!(Ok(r.channel) == buf.get_token_channel(t), "C05: channel");
+                    assert!(Ok(r.token_type) == buf.get_token_type(t), "C05: type");
+                    assert!(Ok(r.start) == buf.get_token_start(t).map(CharOffset::get), "C05: start");
+                    assert!(Ok(r.stop) == buf.get_token_end(t).map(CharOffset::get), "C05: stop");
+                    assert!(Ok(r.line) == buf.get_token_start_line(t), "C05: line");
+                    assert!(Ok(r.column) == buf.get_token_start_column(t), "C05: column");
+                    assert!(Ok(r.end_line) == buf.get_token_end_line(t), "C05: end line");
+                    assert!(Ok(r.end_column) == buf.get_token_end_column(t), "C05: end column");
+                    assert!(buf.get_token_payload(t).map_or(false, |p| payload_same(p, r.payload)), "C05: payload");
+                }
+                i += 1;
+            }
+            kani::cover!($nl == 1 || v[0].end_line > v[0].line, "multi-line token");
+            kani::cover!($nl > 1 || (v[0].start == v[0].stop && v[0].column == 0), "empty token at a line start");
+            kani::cover!(buf.line_infos[0].byte_offset.get() == 3, "BOM line");
+            kani::cover!($nl == 1 || $nt == 1 || (buf.token_infos[$nt - 1].byte_offset == buf.line_infos[$nl - 1].byte_offset && v[$nt - 1 - ($nt > 1) as usize].start < v[$nt - 1 - ($nt > 1) as usize].stop), "token ending in a line feed");
+            std::mem::forget(v);
+            std::mem::forget(buf);
+        }
+
+        /// C02: every accessor succeeds for every index the buffer hands out.
+        #[kani::proof]
+        #[kani::unwind($uw)]
+        fn $c02() {
+            let buf = any_detached::<$nt, $nl>();
+            let n = buf.token_count();
+            assert!(n as usize == buf.token_infos.len());
+            let i: u32 = kani::any();
+            kani::assume(i < n);
+            let t = TokenIdx::new(i);
+            let s = buf.get_token_start_byte_offset(t);
+            let e = buf.get_token_end_byte_offset(t);
+            assert!(s.is_ok() && e.is_ok(), "C02: byte offset accessors succeed");
+            assert!(s.unwrap() <= e.unwrap(), "C02: token start <= token end");
+            assert!(buf.get_token_start(t).is_ok() && buf.get_token_end(t).is_ok(), "C02: char offset accessors succeed");
+            assert!(buf.get_token_start(t).unwrap() <= buf.get_token_end(t).unwrap(), "C02/C03: char start <= char end");
+            assert!(buf.get_token_start_line(t).is_ok() && buf.get_token_end_line(t).is_ok(), "C02: line accessors succeed");
+            assert!(buf.get_token_start_column(t).is_ok() && buf.get_token_end_column(t).is_ok(), "C02: column accessors succeed");
+            assert!(buf.get_token_type(t).is_ok() && buf.get_token_channel(t).is_ok() && buf.get_token_payload(t).is_ok(), "C02: type/channel/payload accessors succeed");
+            let sl = buf.get_token_start_line(t).unwrap();
+            let el = buf.get_token_end_line(t).unwrap();
+            assert!(sl >= 1 && el >= sl && el <= buf.line_count(), "C02/C04: 1 <= start line <= end line <= line count");
+            if i + 1 < n {
+                assert!(e.unwrap() == buf.get_token_start_byte_offset(TokenIdx::new(i + 1)).unwrap(), "C02: token end is the next token's start");
+            }
+            kani::cover!(i == 0);
+            kani::cover!(i + 1 == n);
+            std::mem::forget(buf);
+        }
+    };
+}
+
+detached_harnesses!(1, 1, 4, buf_bulk_vs_accessors_n1, buf_accessors_total_n1);
+detached_harnesses!(2, 1, 4, buf_bulk_vs_accessors_n2l1, buf_accessors_total_n2l1);
+detached_harnesses!(2, 2, 4, buf_bulk_vs_accessors_n2, buf_accessors_total_n2);
+detached_harnesses!(3, 2, 5, buf_bulk_vs_accessors_n3l2, buf_accessors_total_n3l2);
+detached_harnesses!(3, 3, 5, buf_bulk_vs_accessors_n3, buf_accessors_total_n3);
+
+// ---------------------------------------------------------------------------------------------
+// C04/C17/C02/C03: lines, columns, EOF derived from text, through the real add_line/add_token/into_detached
+
+macro_rules! line_col_harness {
+    ($k:literal, $uw:literal, $name:ident) => {
+        /// Accessor formulas against line/column derived from the text alone. Line and column are
+        /// functions of code-point boundaries and line-feed positions only, so the text is modelled as
+        /// $k symbolic characters (UTF-8 length 1..=4, "is a line feed" flag, optional leading BOM).
+        /// The buffer is the one the lexer plumbing builds for such a text (first line at the BOM end,
+        /// one line entry just past every line feed, tokens = cursor snapshots at two symbolic cut
+        /// points + EOF); it is assembled directly because conditional `push`es make CBMC explore Vec
+        /// growth paths (add_line/add_token/into_detached are proved append-only separately).
+        #[kani::proof]
+        #[kani::unwind($uw)]
+        fn $name() {
+            let has_bom: bool = kani::any();
+            let n: usize = kani::any();
+            kani::assume(n <= $k);
+            let mut clen = [1u32; $k];
+            let mut is_nl = [false; $k];
+            let mut i = 0;
+            while i < $k {
+                let l: u32 = kani::any();
+                kani::assume(l >= 1 && l <= 4);
+                clen[i] = l;
+                is_nl[i] = kani::any();
+                kani::assume(!is_nl[i] || l == 1);
+                i += 1;
+            }
+            let start_b = if has_bom { 3u32 } else { 0 };
+            let start_c = if has_bom { 1u32 } else { 0 };
+            // reference positions: byte/char offset, line (1-based) and column of every char boundary
+            let mut pos_b = [start_b; $k + 1];
+            let mut pos_c = [start_c; $k + 1];
+            let mut pos_line = [1u32; $k + 1];
+            let mut pos_col = [0u32; $k + 1];
+            let mut lines = [LineInfo { byte_offset: ByteOffset::new(start_b), start: CharOffset::new(start_c) }; $k + 1];
+            let mut nl = 1usize;
+            let mut i = 0;
+            while i < $k {
+                if i < n {
+                    pos_b[i + 1] = pos_b[i] + clen[i];
+                    pos_c[i + 1] = pos_c[i] + 1;
+                    if is_nl[i] {
+                        pos_line[i + 1] = pos_line[i] + 1;
+                        pos_col[i + 1] = 0;
+                        lines[nl] = LineInfo { byte_offset: ByteOffset::new(pos_b[i + 1]), start: CharOffset::new(pos_c[i + 1]) };
+                        nl += 1;
+                    } else {
+                        pos_line[i + 1] = pos_line[i];
+                        pos_col[i + 1] = pos_col[i] + 1;
+                    }
+                }
+                i += 1;
+            }
+            // tokens at boundaries 0 <= cut1 <= cut2 <= n, EOF at n; a token's line index is the number
+            // of line entries that existed when the cursor was there, minus one (start_token's last_line())
+            let cut1: usize = kani::any();
+            let cut2: usize = kani::any();
+            kani::assume(cut1 <= cut2 && cut2 <= n);
+            let mk = |p: usize, tt: TokenType| TokenInfo { channel: TokenChannel::DEFAULT, token_type: tt, byte_offset: ByteOffset::new(pos_b[p]), start: CharOffset::new(pos_c[p]), line: LineIdx::new(pos_line[p] - 1), payload: Payload::None };
+            let toks = [mk(0, TokenType::WS), mk(cut1, TokenType::MacroString), mk(cut2, TokenType::SEMI), mk(n, TokenType::EOF)];
+            let bounds = [0usize, cut1, cut2, n, n];
+            let mut lv = lines.to_vec();
+            lv.truncate(nl);
+            let tb = TokenizedBuffer { line_infos: lv, token_infos: toks.to_vec(), string_literals_buffer: String::new() };
+            assert!(tb.line_count() == pos_line[n], "C04: line count = 1 + number of line feeds");
+            let ti: usize = kani::any();
+            kani::assume(ti < 4);
+            let t = TokenIdx::new(ti as u32);
+            let (s, e) = (bounds[ti], bounds[ti + 1]);
+            assert!(tb.get_token_start_byte_offset(t).unwrap().get() == pos_b[s] && tb.get_token_end_byte_offset(t).unwrap().get() == pos_b[e], "C02: token byte range");
+            assert!(tb.get_token_start(t).unwrap().get() == pos_c[s] && tb.get_token_end(t).unwrap().get() == pos_c[e], "C03: token char range");
+            assert!(tb.get_token_start_line(t) == Ok(pos_line[s]), "C04: start line = 1 + line feeds before the start");
+            assert!(tb.get_token_start_column(t) == Ok(pos_col[s]), "C04/C17: start column = code points since the line began (BOM not counted)");
+            // end = the start for an empty token; otherwise line of the last char, its column + 1
+            let (el, ec) = if s == e { (pos_line[s], pos_col[s]) } else { (pos_line[e - 1], pos_col[e - 1] + 1) };
+            assert!(tb.get_token_end_line(t) == Ok(el), "C04: end line is the line of the token's last character");
+            assert!(tb.get_token_end_column(t) == Ok(ec), "C04/C17: end column is one past the last character's column");
+            kani::cover!(el > pos_line[s], "multi-line token");
+            kani::cover!(s == e && pos_col[s] == 0 && pos_line[s] > 1, "empty token at a line start");
+            kani::cover!(has_bom && ti == 0 && pos_col[s] == 0, "first token after BOM at column 0");
+            kani::cover!(s < e && is_nl[e - 1], "token ending in a line feed");
+            kani::cover!(s < e && pos_b[e] - pos_b[s] > pos_c[e] - pos_c[s], "multi-byte characters");
+            std::mem::forget(tb);
+        }
+    };
+}
+
+line_col_harness!(3, 6, buf_line_col_vs_text_k3);
+line_col_harness!(5, 8, buf_line_col_vs_text_k5);
+
+// ---------------------------------------------------------------------------------------------
+// into_detached: adds no EOF if present, exactly one otherwise; adds a line only if there is none
+
+#[kani::proof]
+#[kani::unwind(9)]
+fn buf_into_detached() {
+    // `source.chars().count()` over symbolic bytes does not finish (20 min); the text is a fixed
+    // sample mixing 1-, 2- and 4-byte characters, the buffer state is symbolic.
+    let src = "a\u{e9}\u{1f525}";
+    let mut wb = WorkTokenizedBuffer::verif_new(src.len(), 8);
+    let with_line: bool = kani::any();
+    let with_eof: bool = kani::any();
+    if with_line {
+        wb.add_line(ByteOffset::new(0), CharOffset::new(0));
+    }
+    if with_eof {
+        kani::assume(with_line);
+        wb.add_token(TokenChannel::DEFAULT, TokenType::EOF, ByteOffset::new(src.len() as u32), CharOffset::new(3), LineIdx::new(0), Payload::None);
+    }
+    let tb = wb.into_detached(src);
+    assert!(tb.line_count() == 1, "C04: into_detached guarantees a first line");
+    assert!(tb.token_count() == 1, "C02: exactly one EOF");
+    let t = TokenIdx::new(0);
+    assert!(tb.get_token_type(t) == Ok(TokenType::EOF), "C02: EOF is last");
+    assert!(tb.get_token_start_byte_offset(t).unwrap().get() as usize == src.len(), "C02: EOF at end of text");
+    assert!(tb.get_token_start(t).unwrap().get() == 3, "C03: EOF char offset is the code-point count");
+    kani::cover!(with_eof);
+    kani::cover!(!with_line);
+    std::mem::forget(tb);
+}
+
+// ---------------------------------------------------------------------------------------------
+// rollback restores exactly the checkpointed prefix (C02/C04/C07)
+
+#[kani::proof]
+#[kani::unwind(10)]
+fn buf_checkpoint_rollback() {
+    let mut b = any_work_buffer_mirrored::<2, 2, 2>();
+    let n_t = b.token_infos.len();
+    let n_l = b.line_infos.len();
+    let n_s = b.string_literals_buffer.len();
+    let t0 = if n_t > 0 { Some(b.token_infos[0]) } else { None };
+    let cp = b.checkpoint();
+    // speculative additions
+    let bo = b.token_infos.last().map_or(0, |t| t.byte_offset.get());
+    let lb = b.line_infos[n_l - 1].byte_offset.get();
+    let nb: u32 = kani::any();
+    kani::assume(nb >= bo && nb >= lb && nb <= 1000);
+    if kani::any() {
+        b.add_line(ByteOffset::new(nb), CharOffset::new(0));
+    }
+    if kani::any() {
+        b.add_token(TokenChannel::DEFAULT, TokenType::MacroString, ByteOffset::new(nb), CharOffset::new(0), LineIdx::new(n_l as u32 - 1), Payload::None);
+    }
+    if kani::any() {
+        b.add_string_literal("ab");
+    }
+    b.rollback(cp);
+    assert!(b.token_infos.len() == n_t && b.line_infos.len() == n_l && b.string_literals_buffer.len() == n_s, "C02/C04/C07: rollback restores token, line and literal counts");
+    if let Some(t) = t0 {
+        assert!(tok_same(&b.token_infos[0], &t), "C02: rollback keeps earlier tokens");
+    }
+    std::mem::forget(b);
+}
+
+#[kani::proof]
+#[kani::unwind(5)]
+fn twin_buf_bulk_vs_accessors() {
+    let buf = any_detached::<2, 2>();
+    let v = buf.into_resolved_token_vec();
+    kani::assume(v.len() == 2);
+    assert!(false, "TWIN: reachable");
+}
